@@ -218,4 +218,353 @@ theorem findFrom_none {sch : Schema} {rows : Nat → Option Row} {cs : List Cond
         · subst hik; rw [hk] at hr; cases hr; simpa using hm
         · exact ih (k + 1) h i r' (by omega) (by omega) hr
 
+/-! ### inserts -/
+
+/-- the row a fresh INSERT of `v` stores (client defaults, tracked times, database defaults, next rowid) -/
+def insertedRow (sch : Schema) (next : Nat) (v : Row) : Row := proposed sch next (fillCreate sch v)
+
+/-- the key an insert of `v` targets -/
+def targetKey (s : Store) (v : Row) : Nat := if v 0 = 0 then s.next else v 0
+
+theorem insertedRow_key {sch : Schema} (hw : sch.WF) (s : Store) (v : Row) :
+    insertedRow sch s.next v 0 = targetKey s v := by
+  have h0 : sch.kind 0 = .pk := (hw.2 0).2 rfl
+  simp [insertedRow, proposed, fillCreate, targetKey, h0]
+
+theorem setAll_apply (fs : List (Nat × Nat)) : ∀ (r : Row) (c : Nat),
+    setAll r fs c = (lookupCol fs.reverse c).getD (r c) := by
+  induction fs with
+  | nil => intro r c; simp [setAll, lookupCol]
+  | cons f rest ih =>
+    intro r c
+    obtain ⟨fc, fv⟩ := f
+    simp only [setAll, List.reverse_cons]
+    rw [ih]
+    have key : ∀ (l : List (Nat × Nat)), lookupCol (l ++ [(fc, fv)]) c =
+        (lookupCol l c).or (if fc = c then some fv else none) := by
+      intro l
+      induction l with
+      | nil => simp [lookupCol]
+      | cons x xs ihx =>
+        obtain ⟨xc, xv⟩ := x
+        simp only [List.cons_append, lookupCol]
+        by_cases hx : xc = c <;> simp [hx, ihx]
+    rw [key]
+    cases h : lookupCol rest.reverse c with
+    | some v => simp
+    | none =>
+      by_cases hc : fc = c
+      · simp [hc, setCol]
+      · have : ¬ c = fc := fun e => hc e.symm
+        simp [hc, setCol, this]
+
+theorem insertRow_absent {sch : Schema} (hw : sch.WF) {s : Store} {v : Row} (rule : Option Rule)
+    (habs : s.rows (targetKey s v) = none) :
+    insertRow sch s rule v =
+      { store := { rows := fun j => if j = targetKey s v then some (insertedRow sch s.next v) else s.rows j,
+                   next := max s.next (targetKey s v + 1) },
+        val := insertedRow sch s.next v, ra := 1, err := .ok } := by
+  have hk := insertedRow_key hw s v
+  unfold insertedRow at hk
+  simp only [insertRow, hk, habs]
+  rfl
+
+theorem insertRow_conflict_none {sch : Schema} (hw : sch.WF) {s : Store} {v old : Row}
+    (hex : s.rows (targetKey s v) = some old) :
+    insertRow sch s none v = { store := s, val := fillCreate sch v, ra := 0, err := .unique } := by
+  have hk := insertedRow_key hw s v
+  unfold insertedRow at hk
+  simp only [insertRow, hk, hex]
+
+theorem insertRow_conflict_rule {sch : Schema} (hw : sch.WF) {s : Store} {v old : Row} (r : Rule)
+    (hex : s.rows (targetKey s v) = some old) :
+    insertRow sch s (some r) v =
+      match resolve sch (fillCreate sch v) r with
+      | none => { store := s, val := fillCreate sch v, ra := 0, err := .ok }
+      | some asg =>
+        { store := s.put (targetKey s v) (applyAsg old (insertedRow sch s.next v) asg),
+          val := backfill sch (fillCreate sch v) (applyAsg old (insertedRow sch s.next v) asg), ra := 1, err := .ok } := by
+  have hk := insertedRow_key hw s v
+  unfold insertedRow at hk
+  simp only [insertRow, hk, hex]
+  rfl
+
+/-! ### Save, case by case -/
+
+theorem kind0 {sch : Schema} (hw : sch.WF) : sch.kind 0 = .pk := (hw.2 0).2 rfl
+
+theorem touchUpdate_key {sch : Schema} (hw : sch.WF) (v : Row) : touchUpdate sch v 0 = v 0 := by
+  simp [touchUpdate, kind0 hw]
+
+theorem wf_next_none {s : Store} (hs : s.WF) : s.rows s.next = none := by
+  cases h : s.rows s.next with
+  | none => rfl
+  | some r => have := (hs.2 _ _ h).2.2; omega
+
+theorem not_visible_any {sch : Schema} {old : Row} (v1 : Row) (h : visible sch old = false) :
+    ((List.range sch.ncols).any fun c => (updateAllAsg sch v1 c).isSome) = true := by
+  unfold visible at h
+  have hex : ∃ c, c ∈ List.range sch.ncols ∧ liveCol sch old c = false := by
+    apply Classical.byContradiction
+    intro hne
+    have hall : (List.range sch.ncols).all (liveCol sch old) = true := by
+      rw [List.all_eq_true]
+      intro c hc
+      cases hb : liveCol sch old c with
+      | true => rfl
+      | false => exact absurd ⟨c, hc, hb⟩ hne
+    rw [hall] at h
+    cases h
+  obtain ⟨c, hc, hb⟩ := hex
+  simp only [List.any_eq_true]
+  refine ⟨c, hc, ?_⟩
+  unfold liveCol at hb
+  cases hk : sch.kind c <;> simp [hk] at hb
+  simp [updateAllAsg, inInsert, hk]
+
+theorem visible_col {sch : Schema} {r : Row} (h : visible sch r = true) {c : Nat} (hc : c < sch.ncols)
+    (hk : sch.kind c = .softDelete) : r c = 0 := by
+  unfold visible at h
+  rw [List.all_eq_true] at h
+  have := h c (by simp [hc])
+  simpa [liveCol, hk] using this
+
+theorem visible_of_cols {sch : Schema} {r : Row}
+    (h : ∀ c, c < sch.ncols → sch.kind c = .softDelete → r c = 0) : visible sch r = true := by
+  unfold visible
+  rw [List.all_eq_true]
+  intro c hc
+  have hc' : c < sch.ncols := by simpa using hc
+  unfold liveCol
+  cases hk : sch.kind c <;> simp
+  exact h c hc' hk
+
+theorem save_zero {sch : Schema} (hw : sch.WF) {s : Store} (hs : s.WF) {v : Row} (hz : v 0 = 0) :
+    save sch s v =
+      { store := { rows := fun j => if j = s.next then some (insertedRow sch s.next v) else s.rows j,
+                   next := max s.next (s.next + 1) },
+        val := insertedRow sch s.next v, ra := 1, err := .ok } := by
+  have ht : targetKey s v = s.next := by simp [targetKey, hz]
+  have := insertRow_absent hw none (s := s) (v := v) (by rw [ht]; exact wf_next_none hs)
+  rw [ht] at this
+  simp [save, hz, this]
+
+theorem save_live {sch : Schema} (hw : sch.WF) {s : Store} {v old : Row} (hz : v 0 ≠ 0)
+    (hex : s.rows (v 0) = some old) (hv : visible sch old = true) :
+    save sch s v =
+      { store := s.put (v 0) (mergeNonPk sch old (touchUpdate sch v)), val := touchUpdate sch v, ra := 1, err := .ok } := by
+  simp [save, hz, saveUpdate, touchUpdate_key hw, hex, hv]
+
+theorem save_absent {sch : Schema} (hw : sch.WF) {s : Store} {v : Row} (hz : v 0 ≠ 0)
+    (habs : s.rows (v 0) = none) :
+    save sch s v =
+      { store := { rows := fun j => if j = v 0 then some (insertedRow sch s.next (touchUpdate sch v)) else s.rows j,
+                   next := max s.next (v 0 + 1) },
+        val := insertedRow sch s.next (touchUpdate sch v), ra := 1, err := .ok } := by
+  have ht : targetKey s (touchUpdate sch v) = v 0 := by simp [targetKey, touchUpdate_key hw, hz]
+  have := insertRow_absent hw (some .updateAll) (s := s) (v := touchUpdate sch v) (by rw [ht]; exact habs)
+  rw [ht] at this
+  simp [save, hz, saveUpdate, touchUpdate_key hw, habs, this]
+
+theorem save_dead {sch : Schema} (hw : sch.WF) {s : Store} {v old : Row} (hz : v 0 ≠ 0)
+    (hex : s.rows (v 0) = some old) (hv : visible sch old = false) :
+    save sch s v =
+      { store := s.put (v 0) (applyAsg old (insertedRow sch s.next (touchUpdate sch v))
+                    (updateAllAsg sch (fillCreate sch (touchUpdate sch v)))),
+        val := backfill sch (fillCreate sch (touchUpdate sch v))
+                 (applyAsg old (insertedRow sch s.next (touchUpdate sch v))
+                    (updateAllAsg sch (fillCreate sch (touchUpdate sch v)))),
+        ra := 1, err := .ok } := by
+  have ht : targetKey s (touchUpdate sch v) = v 0 := by simp [targetKey, touchUpdate_key hw, hz]
+  have := insertRow_conflict_rule hw .updateAll (s := s) (v := touchUpdate sch v) (old := old) (by rw [ht]; exact hex)
+  rw [ht] at this
+  simp [save, hz, saveUpdate, touchUpdate_key hw, hex, hv, this, resolve, not_visible_any _ hv]
+
+/-! ### well-formedness is preserved -/
+
+theorem put_wf {s : Store} (hs : s.WF) {k : Nat} {old new : Row} (hex : s.rows k = some old) (hn : new 0 = k) :
+    (s.put k new).WF := by
+  refine ⟨hs.1, ?_⟩
+  intro j r hr
+  simp only [Store.put] at hr
+  by_cases hj : j = k
+  · subst hj
+    simp at hr
+    subst hr
+    exact ⟨hn, (hs.2 _ _ hex).2⟩
+  · simp [hj] at hr
+    exact hs.2 _ _ hr
+
+theorem ins_wf {s : Store} (hs : s.WF) {k : Nat} {row : Row} (hk : 1 ≤ k) (hn : row 0 = k) :
+    ({ rows := fun j => if j = k then some row else s.rows j, next := max s.next (k + 1) } : Store).WF := by
+  refine ⟨by have := hs.1; simp only; omega, ?_⟩
+  intro j r hr
+  simp only at hr
+  by_cases hj : j = k
+  · subst hj
+    simp at hr
+    subst hr
+    exact ⟨hn, hk, by simp only; omega⟩
+  · simp [hj] at hr
+    have := hs.2 _ _ hr
+    exact ⟨this.1, this.2.1, by simp only; omega⟩
+
+theorem targetKey_pos {s : Store} (hs : s.WF) (v : Row) : 1 ≤ targetKey s v := by
+  unfold targetKey
+  have := hs.1
+  split <;> omega
+
+/-- the rule does not assign the primary key -/
+def Rule.noPk : Rule → Prop
+  | .doUpdates as => lookupAsg as 0 = none
+  | _ => True
+
+theorem insertRow_wf {sch : Schema} (hw : sch.WF) {s : Store} (hs : s.WF) (rule : Option Rule)
+    (hr : ∀ r, rule = some r → r.noPk) (v : Row) : (insertRow sch s rule v).store.WF := by
+  cases hex : s.rows (targetKey s v) with
+  | none =>
+    rw [insertRow_absent hw rule hex]
+    exact ins_wf hs (targetKey_pos hs v) (insertedRow_key hw s v)
+  | some old =>
+    have hold := (hs.2 _ _ hex).1
+    cases rule with
+    | none => rw [insertRow_conflict_none hw hex]; exact hs
+    | some r =>
+      rw [insertRow_conflict_rule hw r hex]
+      cases hres : resolve sch (fillCreate sch v) r with
+      | none => exact hs
+      | some asg =>
+        apply put_wf hs hex
+        have h0 : asg 0 = none := by
+          cases r with
+          | doNothing => simp [resolve] at hres
+          | doUpdates as =>
+            simp only [resolve, Option.some.injEq] at hres
+            subst hres
+            exact hr _ rfl
+          | updateAll =>
+            simp only [resolve] at hres
+            split at hres
+            · simp only [Option.some.injEq] at hres
+              subst hres
+              simp [updateAllAsg, kind0 hw]
+            · cases hres
+        simp [applyAsg, h0, hold]
+
+theorem save_wf {sch : Schema} (hw : sch.WF) {s : Store} (hs : s.WF) (v : Row) : (save sch s v).store.WF := by
+  by_cases hz : v 0 = 0
+  · rw [save_zero hw hs hz]
+    have h := insertedRow_key hw s v
+    simp only [targetKey, hz, if_true] at h
+    exact ins_wf hs hs.1 h
+  · have ht := touchUpdate_key hw v
+    cases hex : s.rows (v 0) with
+    | none =>
+      rw [save_absent hw hz hex]
+      have h := insertedRow_key hw s (touchUpdate sch v)
+      simp only [targetKey, ht, hz, if_false] at h
+      exact ins_wf hs (by omega) h
+    | some old =>
+      have hold := (hs.2 _ _ hex).1
+      cases hv : visible sch old with
+      | true =>
+        rw [save_live hw hz hex hv]
+        exact put_wf hs hex (by simp [mergeNonPk, kind0 hw, hold])
+      | false =>
+        rw [save_dead hw hz hex hv]
+        exact put_wf hs hex (by simp [applyAsg, updateAllAsg, kind0 hw, hold])
+
+theorem firstOrCreate_wf {sch : Schema} (hw : sch.WF) {s : Store} (hs : s.WF) (qcs txcs : List Cond)
+    (attrs assigns : Option Init) (ha : ∀ i, assigns = some i → lookupCol i.cols 0 = none) :
+    (firstOrCreate sch s qcs txcs attrs assigns).store.WF := by
+  unfold firstOrCreate
+  split
+  · exact insertRow_wf hw hs none (fun _ h => by cases h) _
+  · rename_i r _
+    split
+    · exact hs
+    · rename_i i
+      split
+      · rename_i cur hcur
+        split
+        · apply put_wf hs hcur
+          have := (hs.2 _ _ hcur).1
+          simp [mapUpdate, ha i rfl, kind0 hw, this]
+        · exact hs
+      · exact hs
+
+/-! ### whole programs keep the table well-formed -/
+
+/-- the step does not assign the primary key (through DoUpdates or Assign) -/
+def Step.ok : Step → Prop
+  | .onConflict r => r.noPk
+  | .assign (some i) => lookupCol i.cols 0 = none
+  | _ => True
+
+def Stmt.ok (st : Stmt) : Prop :=
+  (∀ r, st.oc = some r → r.noPk) ∧ (∀ i, st.assigns = some i → lookupCol i.cols 0 = none)
+
+theorem empty_ok : Stmt.empty.ok := by
+  constructor <;> intro _ h <;> simp [Stmt.empty] at h
+
+theorem cloneStmt_ok (cfg : CloneCfg) {st : Stmt} (h : st.ok) : (cloneStmt cfg st).ok := by
+  obtain ⟨h1, h2⟩ := h
+  constructor
+  · intro r hr
+    simp only [cloneStmt] at hr
+    split at hr
+    · exact h1 r hr
+    · cases hr
+  · intro i hi
+    simp only [cloneStmt] at hi
+    split at hi
+    · exact h2 i hi
+    · cases hi
+
+theorem getInstance_ok (cfg : CloneCfg) {h : Handle} (ho : h.stmt.ok) : (getInstance cfg h).stmt.ok := by
+  unfold getInstance
+  by_cases h0 : h.clone = 0
+  · simp [h0, ho]
+  · by_cases h1 : h.clone = 1
+    · simp [h1, empty_ok]
+    · simp [h0, h1, cloneStmt_ok cfg ho]
+
+theorem step_ok (cfg : CloneCfg) {h : Handle} (ho : h.stmt.ok) {st : Step} (hs : st.ok) : (h.step cfg st).stmt.ok := by
+  have g := getInstance_ok cfg ho
+  cases st with
+  | where_ cs => exact ⟨g.1, g.2⟩
+  | onConflict r =>
+    refine ⟨?_, g.2⟩
+    intro r' hr
+    simp only [Handle.step, Option.some.injEq] at hr
+    subst hr
+    exact hs
+  | attrs a => exact ⟨g.1, g.2⟩
+  | assign a =>
+    refine ⟨g.1, ?_⟩
+    intro i hi
+    simp only [Handle.step] at hi
+    subst hi
+    exact hs
+  | session => exact ho
+  | withCtx => exact cloneStmt_ok cfg ho
+
+theorem run_ok (cfg : CloneCfg) (steps : List Step) :
+    ∀ h : Handle, h.stmt.ok → (∀ st ∈ steps, st.ok) → (h.run cfg steps).stmt.ok := by
+  induction steps with
+  | nil => intro h ho _; exact ho
+  | cons st rest ih =>
+    intro h ho hall
+    exact ih _ (step_ok cfg ho (hall st (by simp))) (fun x hx => hall x (by simp [hx]))
+
+theorem finish_wf {cfg : CloneCfg} {sch : Schema} (hw : sch.WF) {s : Store} (hs : s.WF) {h : Handle}
+    (ho : h.stmt.ok) (f : Fin) : (finish cfg sch s h f).store.WF := by
+  cases f with
+  | save v => exact save_wf hw hs v
+  | create v => exact insertRow_wf hw hs _ (getInstance_ok cfg ho).1 v
+  | firstOrInit inl =>
+    simp only [finish, firstOrInit]
+    split <;> exact hs
+  | firstOrCreate inl => exact firstOrCreate_wf hw hs _ _ _ _ ho.2
+
 end Gorm.Upsert
